@@ -157,8 +157,9 @@ Definition rf_insert (rf : rfilter) (n : N) (bl : list N) : option (list wr * rf
     else Some ([], {| rf_from := rf_from rf; rf_cols := c; rf_next := n + 1; rf_err := false |}).
 
 (* RunningEventFilter.onReorg. Returns the writes (None = error) and the filter as the code leaves it.
-   Crossing a window start backwards: the key that is deleted is the one of the CURRENT (still empty)
-   window, the previous window is re-loaded from the database (not from the batch) and stays persisted. *)
+   Crossing a window start backwards (code after /repo 5440575): the previous window is re-loaded from
+   the database (not from the batch) and ITS persisted copy is deleted through the batch; the running
+   window that is left was empty and never persisted. *)
 Definition rf_reorg (d : disk) (rf : rfilter) : option (list wr) * rfilter :=
   if rf_err rf then (None, rf)
   else if rf_next rf =? 0 then (None, rf)           (* unreachable behind the chain-height read *)
@@ -167,7 +168,7 @@ Definition rf_reorg (d : disk) (rf : rfilter) : option (list wr) * rfilter :=
     if (0 <? rf_from rf) && (cur + 1 =? rf_from rf) then
       match get_window d (align cur) with
       | None => (None, rf)
-      | Some c => (Some [WWindow (rf_from rf) None],
+      | Some c => (Some [WWindow (align cur) None],
                    {| rf_from := align cur; rf_cols := col_clear cur c; rf_next := cur; rf_err := false |})
       end
     else if (cur <? rf_from rf) || (rf_to rf <? cur)
@@ -421,12 +422,21 @@ Definition block_full (d : disk) (n : N) : bool :=
   | None => false
   end.
 
-(* environment assumptions per operation, evaluated in the state the operation starts from *)
-Definition op_ok (d : disk) (o : op) : bool :=
+(* the in-memory filter is where a process that stored block h last has it *)
+Definition mem_sync (d : disk) (m : rfilter) : bool :=
+  negb (rf_err m) &&
+  match d_height d with
+  | Some h => (rf_next m =? h + 1) && (rf_from m =? align (h + 1))
+  | None => (rf_next m =? 0) && (rf_from m =? 0)
+  end.
+
+(* assumptions per operation, evaluated in the state the operation starts from *)
+Definition op_ok (d : disk) (m : rfilter) (o : op) : bool :=
   match o with
   | Revert =>
       match d_height d with
-      | Some h => negb ((h + 1) mod W =? 0)                    (* not the last block of a persisted window *)
+      | Some h => (negb ((h + 1) mod W =? 0) || mem_sync d m)  (* reverting the last block of a persisted
+                                                                  window: the filter must be in sync *)
                   && ((h =? 0) || block_full d (h - 1))        (* not onto a pruned block *)
       | None => true
       end
@@ -437,7 +447,7 @@ Definition op_ok (d : disk) (o : op) : bool :=
 Fixpoint ops_ok (ops : list op) (st : disk * rfilter) : bool :=
   match ops with
   | [] => true
-  | o :: r => op_ok (fst st) o && ops_ok r (step st o)
+  | o :: r => op_ok (fst st) (snd st) o && ops_ok r (step st o)
   end.
 
 (* the filter can take block h+1 *)
